@@ -467,7 +467,7 @@ class PhonopyAtoms:
     @property
     def volume(self):
         """Return cell volume."""
-        return np.linalg.det(self._cell)
+        return abs(np.linalg.det(self._cell))
 
     def get_volume(self):
         """Return cell volume."""
